@@ -53,6 +53,31 @@ def is_none_term(t):
     return False
 
 
+def field_absent_fact(fs, field):
+    """A dominating fact that self.<field> is None, spelled on the field itself: is_none() true, is_some() false, discriminant 0,
+    or `== None`."""
+    for f in fs:
+        if f[0] == "bool":
+            t = core(f[1])
+            if t[0] == "call" and len(t[2]) == 1 and self_path(t[2][0]) == [field]:
+                last = t[1].split("::")[-1]
+                if (last == "is_none" and f[2] is True) or (last == "is_some" and f[2] is False):
+                    return True
+            if t[0] == "call" and t[1].endswith("PartialEq>::eq") or (t[0] == "call" and t[1].endswith("::eq")):
+                if len(t[2]) == 2 and ((self_path(t[2][0]) == [field] and is_none_term(t[2][1])) or (self_path(t[2][1]) == [field] and is_none_term(t[2][0]))) and f[2] is True:
+                    return True
+            if t[0] == "call" and (t[1].endswith("PartialEq>::ne") or t[1].endswith("::ne")):
+                if len(t[2]) == 2 and ((self_path(t[2][0]) == [field] and is_none_term(t[2][1])) or (self_path(t[2][1]) == [field] and is_none_term(t[2][0]))) and f[2] is False:
+                    return True
+        if f[0] == "discr":
+            src = core(f[1])
+            if src[0] == "discr":
+                src = core(src[1])
+            if self_path(src) == [field] and f[2] == 0:
+                return True
+    return False
+
+
 def check_config(ctx, F, tag):
     # ---------------- R1
     for en, sup, field, ctor, targ in ENABLES:
@@ -63,7 +88,7 @@ def check_config(ctx, F, tag):
             raise Undecided("%s does not store BitVector.%s" % (en, field))
         for k, (bi, si, st) in enumerate(stores):
             fs = facts_at(b, bi)
-            guard = any(f[0] == "bool" and f[2] is False and m(Call(sup, Param(0)), f[1]) for f in fs)
+            guard = any(f[0] == "bool" and f[2] is False and m(Call(sup, Param(0)), f[1]) for f in fs) or field_absent_fact(fs, field)
             val = b.term_of_rvalue(st["rv"])
             env = {}
             okv = m(("adt", "std::option::Option", "Some", ANY, (Call(ctor, Param(0)),)), val, env)
